@@ -512,7 +512,7 @@ func checkC20(e *Engine, r *Report) {
 		// without the corresponding store (for the limit: on the paths that consult the quota at all)
 		for _, t := range []struct {
 			key, field, what string
-			dec            *ssa.Function
+			dec              *ssa.Function
 		}{{"request", "Requests", "CPU request", dec}, {"limit", "Limits", "CPU limit", decQ}} {
 			var calls []ssa.Value
 			AllInstrsOf(est, func(in ssa.Instruction) {
